@@ -13,4 +13,8 @@ TEXT = {
         "text": "codec_roundtrip (byte-level BSON encode/decode of every supported value incl. NaN payloads, -0, Decimal128 specials, binary subtypes), file_roundtrip and reload_identity (buildCatalog ∘ decodeFile ∘ encodeFile ∘ buildFile = id on well-formed catalogs; the necessity of dot-free database names is itself a theorem) are Lean theorems; the model codec is compared byte for byte with bson.Marshal/Unmarshal and the model's load/store with the real FileStore on generated API histories (reopen, canonical dump, duplicate probes against every unique index).",
         "note": "Trusted: Lean kernel; the real BSON codec (compared, not verified); index rebuild on load enters reload_identity as parameter indexOk (C15 covers index content); Go map order (decode is order-insensitive; exercised on real files).",
     },
+    "C05": {
+        "text": "crash_old_or_new, kill_old_or_new, durable_after_return, fault_reports, rerun_after_crash/fault and visible_le_durable are Lean theorems for every old/new content, every split of the writes, every prefix of system calls, every fault plan and every outcome of a POSIX-style crash adversary (any subset of un-synced directory operations, arbitrary un-synced data), about the program Expected.atomicWriteSteps; that program is regenerated from dbkit/atomic.go on every run (call order, error edges, defers, O_EXCL) and compared in Lean; negative theorems show that dropping either fsync or reordering the rename breaks the property. The real code is validated by killing a real writer process at every syscall of a commit (strace injection), by loading every model-enumerated power-loss image with the real FileStore.Load, and by failing/panicking Store calls.",
+        "note": "Partial w.r.t. real kernels/file systems/disks (represented by the stated crash model). Corner recorded: a failure of the directory open/fsync AFTER the rename returns an error although the file already shows the new state.",
+    },
 }
